@@ -313,6 +313,50 @@ let run_unm t : string * string =
     let foreign = List.exists (function (_, UNone ((KOther, _), _)) -> true | _ -> false) l in
     if foreign then ("-", "-") else (String.concat "|" (List.map show l), "-")
 
+
+(* ---------- C04/C13: the file writer ---------- *)
+let default_opts = { o_syntax = Warn; o_spec = Warn; o_unknown = Warn; o_block = Ignore; o_skip_parse = false;
+  o_add_id = true; o_add_cl = true; o_add_digest = true; o_fix_cl = true; o_fix_digest = true; o_fix_syntax = true;
+  o_fix_wfblock = false; o_alg = bytes_of_str "sha1"; o_enc = Base32 }
+let add_all hs l = List.fold_left (fun acc (n, v) -> m_add field_table uni_lower (bytes_of_str n) v acc) hs l
+let built_record rt typ fields content id =
+  let hs0 = m_set field_table uni_lower (bytes_of_str "WARC-Type") (bytes_of_str typ) [] in
+  match fst (m_build default_opts (n_of_int 2) (n_of_int rt) (add_all hs0 fields) content (bytes_of_str id)) with
+  | Ok (r, _) -> r
+  | Err _ -> failwith "model: builder rejected a writer record"
+let run_writer t : string * string =
+  let max = next_int t in let compress = next_int t = 1 in let ratio = next t in
+  let info = next_int t = 1 in let flush = next_int t = 1 in
+  let nrec = next_int t in
+  let recs = List.init nrec (fun i ->
+    let body = next_hex t in
+    built_record 4 "resource"
+      [("WARC-Date", bytes_of_str "2021-05-06T07:08:09Z"); ("Content-Type", bytes_of_str "application/octet-stream");
+       ("WARC-Target-URI", bytes_of_str ("http://example.com/" ^ string_of_int i))]
+      body (Printf.sprintf "urn:uuid:%08d-0000-0000-0000-000000000000" (i + 1))) in
+  let nops = next_int t in
+  let ops = List.init nops (fun _ ->
+    match next t with
+    | "r" -> WRotate
+    | _ -> let k = next_int t in WWrite (List.init k (fun _ -> nat_of_int (next_int t)))) in
+  let conf = { c_max = z_of_int max; c_compress = compress; c_warcinfo = info; c_flush = flush } in
+  let name_of (k : nat) = bytes_of_str (Printf.sprintf "v-%04d.warc%s" (int_of_nat k + 1) (if compress then ".gz" else "")) in
+  let scale (z : z) = z_of_tok (ask ("scale " ^ ratio ^ " " ^ tok_of_z z)) in
+  let zsize (b : n list) = z_of_tok (ask ("gzsize " ^ hex b)) in
+  let info_rec (name : n list) =
+    let nm = str_of_bytes name in
+    let k = int_of_string (String.sub nm 2 4) in
+    built_record 1 "warcinfo"
+      [("WARC-Date", bytes_of_str "2021-05-06T07:08:09Z"); ("WARC-Filename", name); ("Content-Type", bytes_of_str "application/warc-fields")]
+      (bytes_of_str "software: verif\r\n") (Printf.sprintf "urn:uuid:99999999-0000-0000-0000-%012d" k) in
+  let (st, resps) = w_run field_table uni_lower conf name_of scale zsize info_rec w_init recs ops in
+  let st = w_close st in
+  let show_resp r = Printf.sprintf "%s@%s+%s!%d" (str_of_bytes r.rs_name) (tok_of_z r.rs_off) (tok_of_z r.rs_n) (if r.rs_err then 1 else 0) in
+  let ops_obs = List.map2 (fun o rs -> match o with WRotate -> "rotate" | WWrite _ -> "w:" ^ String.concat "," (List.map show_resp rs)) ops resps in
+  let files = List.sort compare (List.map (fun f -> (str_of_bytes f.f_name, tok_of_z (fsize conf zsize f))) st.w_files) in
+  let cbs = List.filter_map (function ECallback (n, sz, i) -> Some (Printf.sprintf "%s=%s=%s" (str_of_bytes n) (tok_of_z sz) (str_of_bytes i)) | _ -> None) st.w_effects in
+  (String.concat ";" (ops_obs @ ["files:" ^ String.concat "," (List.map (fun (n, s) -> n ^ "=" ^ s) files); "cb:" ^ String.concat "," cbs]), "-")
+
 (* ---------- main ---------- *)
 let run_line (line : string) : string * string =
   let t = { rest = List.filter (fun s -> s <> "") (String.split_on_char ' ' line) } in
@@ -325,6 +369,7 @@ let run_line (line : string) : string * string =
   | "block" -> run_block t
   | "build" -> run_build t
   | "unm" -> run_unm t
+  | "writer" -> run_writer t
   | d -> failwith ("unknown domain " ^ d)
 
 let () =
